@@ -128,6 +128,8 @@ def make_variants(ctx, items, exact_lines, budget):
         cuts = sorted(set(cuts) | set(pick))
     for c in cuts:
         var.append({"mode": "split", "cuts": [c]})
+    if budget.get("every"):
+        var.append({"mode": "split", "cuts": list(range(budget["every"], total, budget["every"]))})
     # all line ends at once, all CR|LF at once
     var.append({"mode": "split", "cuts": [b - 1 for (a, b, c) in lay] + [c - 1 for (a, b, c) in lay]})
     for _ in range(budget.get("nk", 0)):
@@ -165,7 +167,7 @@ def history_jobs(ctx, behaviours, svcs, nhist, budget, density=0.35, huge=0):
         lines = BR.render_items(rend, items)
         bud = dict(budget)
         if n < huge:
-            bud.update(all2=False, alltrunc=False, bytes=(n == 0), n2=6, ntrunc=6)
+            bud.update(all2=False, alltrunc=False, bytes=(n == 0 and budget.get("huge_bytes", False)), n2=6, ntrunc=6, every=777)
         elif n >= budget.get("full_for", 0):
             bud.update(all2=False, alltrunc=False)
         jobs.append({"rid": len(jobs), "svcs": svcs, "items": items, "variants": make_variants(ctx, items, lines, bud)})
@@ -491,6 +493,7 @@ MC_CONFIGS = {
     "t1": ("MCReadLine_t1.cfg", 8, "alphabet {5 SP : LF CR NUL N}, streams <= 6 bytes, ARGV = 2"),
     "t2": ("MCReadLine_t2.cfg", 8, "alphabet {5 SP : LF CR NUL N - 1 TAB}, streams <= 5 bytes, ARGV = 2"),
     "t3": ("MCReadLine_t3.cfg", 8, "alphabet {a SP : LF}, streams <= 8 bytes, ARGV = 3"),
+    "t4": ("MCReadLine_t4.cfg", 8, "alphabet {5 SP : LF CR NUL N}, streams <= 7 bytes, ARGV = 2"),
 }
 
 
@@ -537,10 +540,10 @@ def run(ctx):
     quick = ctx.tier == "quick"
     # the exhaustive model runs go on beside the replay
     pool = ThreadPoolExecutor(1)
-    fut = pool.submit(model_check_input_layer, ctx, ["q", "w"] if quick else ["t1", "t2", "t3"])
+    fut = pool.submit(model_check_input_layer, ctx, ["q", "w"] if quick else ["t4", "t2", "t3"])
     distinct = 0
     if quick:
-        jobs = histories(ctx, "hq", "S_t1d", nhist=110, nstd=300, huge=1, barrage=True,
+        jobs = histories(ctx, "hq", "S_t1d", nhist=100, nstd=250, huge=1, barrage=True,
                          budget={"full_for": 2, "all2": True, "alltrunc": True, "bytes": True, "n2": 5, "special": 8, "nk": 3,
                                  "ntrunc": 5, "strunc": 6},
                          max_inst=1, max_pw=1, emit_mod=20)
@@ -551,18 +554,18 @@ def run(ctx):
         ncases += byte_level(ctx, mutation_cases(ctx.rng, 4000), "mut")
         ncases += byte_level(ctx, mutation_cases(ctx.rng, 1200), "mutc", with_class=True)
     else:
-        jobs = histories(ctx, "ht", "S_t1d", nhist=900, nstd=3000, huge=3, barrage=True,
-                         budget={"full_for": 12, "all2": True, "alltrunc": True, "bytes": True, "n2": 12, "special": 25, "nk": 8,
+        jobs = histories(ctx, "ht", "S_t1d", nhist=450, nstd=3000, huge=3, barrage=True,
+                         budget={"huge_bytes": True, "full_for": 11, "all2": True, "alltrunc": True, "bytes": True, "n2": 12, "special": 25, "nk": 8,
                                  "ntrunc": 12, "strunc": 14},
                          max_inst=2, max_pw=1, emit_mod=8)
-        jobs += histories(ctx, "ht1", "S_q1", nhist=500, nstd=2000, huge=1, barrage=True,
+        jobs += histories(ctx, "ht1", "S_q1", nhist=220, nstd=2000, huge=1, barrage=True,
                           budget={"full_for": 4, "all2": True, "alltrunc": True, "bytes": True, "n2": 10, "special": 20, "nk": 6,
                                   "ntrunc": 10, "strunc": 12},
                           max_inst=1, max_pw=2, emit_mod=30)
-        jobs += histories(ctx, "ht2", "S_t1c", nhist=300, nstd=1000,
-                          budget={"full_for": 2, "all2": True, "alltrunc": True, "bytes": True, "n2": 10, "special": 20, "nk": 6,
+        jobs += histories(ctx, "ht2", "S_t1c", nhist=120, nstd=1000,
+                          budget={"full_for": 1, "all2": True, "alltrunc": True, "bytes": True, "n2": 10, "special": 20, "nk": 6,
                                   "ntrunc": 10, "strunc": 12},
-                          max_inst=1, max_pw=2, emit_mod=60)
+                          max_inst=1, max_pw=1, emit_mod=10)
         ncases = byte_level(ctx, enumerated_cases(4, 3), "enum")
         ncases += byte_level(ctx, mutation_cases(ctx.rng, None), "mut")
         ncases += byte_level(ctx, mutation_cases(ctx.rng, None) + enumerated_cases(2, 2), "mutc", with_class=True)
